@@ -159,6 +159,10 @@ func SideConditions(as []*smt.Term) []*smt.Term {
 			add(smt.Eq(smt.StrLen(x), smt.StrLen(y)))
 			add(smt.InRe(x, reNoUpper))
 			add(smt.Implies(smt.InRe(y, reNoUpper), smt.Eq(x, y)))
+			// lower-casing keeps every occurrence of a letter-case-insensitive fragment
+			for _, f := range HostileFragments {
+				add(smt.Eq(smt.App("str.contains", smt.Bool, x, smt.StrC(f)), smt.InRe(y, smt.ReConcat(smt.SigmaStar, smt.ReCI(f), smt.SigmaStar))))
+			}
 		case "qbody":
 			y := x.Args[0]
 			plain := smt.InRe(y, rePlainQuote)
@@ -1131,4 +1135,31 @@ func fieldsModel(in *Interp, st *State, x *smt.Term) []Alt {
 		st.Assumed = append(st.Assumed, fmt.Sprintf("fields>%d", K))
 	}})
 	return alts
+}
+
+// ReaderContent returns the content of a strings.Reader / bytes.Reader object.
+func (in *Interp) ReaderContent(st *State, p Ptr) *smt.Term {
+	r, ok := in.load(st, p).(*ReaderObj)
+	if !ok {
+		panic("not a reader object")
+	}
+	return r.S
+}
+
+// BufferAppend appends to a bytes.Buffer object.
+func (in *Interp) BufferAppend(st *State, p Ptr, s *smt.Term) {
+	b, ok := in.load(st, p).(*BufObj)
+	if !ok {
+		panic("not a bytes.Buffer")
+	}
+	in.store(st, p, &BufObj{S: smt.Concat(b.S, s)})
+}
+
+// OpaqueError returns a fresh non-nil error value.
+func (in *Interp) OpaqueError(kind string) Value {
+	in.mu.Lock()
+	in.nextObj++
+	id := in.nextObj
+	in.mu.Unlock()
+	return IfaceV{T: errType(kind), V: &OpaqueV{Kind: "err", ID: id}}
 }
